@@ -6,46 +6,75 @@ Import ListNotations.
 Local Open Scope string_scope.
 
 (* ---- the control skeleton the transcriptions above were made from ----
-   per function: is there a `return` outside every loop, and for every loop in source order
-   (nesting depth, contains a return, contains a break of the loop, contains a continue of the loop).
-   tools/lockfacts re-extracts the skeletons from announcer.go on every run and
-   announcer_skeleton_matches (.work/C13/AnnSections.v) compares: `continue` turned into
-   `return`, a dropped early return or a new loop break the correspondence even when no input
-   separates the behaviours yet.
-     SetBalancer:    loop over the service's advertisements leaves by `return` on an equal address
-                     ([override] stops at the first match); `return` when the count is > 1;
-                     loop over a.ndps (Watch) runs through                       -> [inc1]
-     DeleteBalancer: early `return` for an unknown service; loop over the advertisements with
-                     `continue` while the address is still in use ([del_body] never returns);
-                     inner loop over a.ndps (Unwatch)
-     gratuitous:     early `return` when the count is <= 0; two sweeps with `continue` for
-                     responders the advertisement does not cover ([grat_body])
+   per function, for every loop: (nesting depth among loops, contains a return, contains a break of
+   the loop, contains a continue of the loop, calls its body must contain).
+   tools/lockfacts re-extracts the skeletons from announcer.go on every run (per loop additionally
+   ALL the names called in its body, and per function whether there is a `return` outside every
+   loop) and announcer_skeleton_matches (.work/C13/AnnSkeleton.v) compares: `continue` turned into
+   `return`, a loop that lost the call the model gives it, a new or a missing loop break the tie even
+   when no input separates the behaviours yet.
+   What is NOT compared, because it cannot matter for the transcription: the textual order of the
+   loops relative to each other and to straight-line statements (the loops of a function are matched
+   as a MULTISET: every expected loop is paired with a distinct found loop of the same exit
+   structure whose body contains the required calls, and no found loop is left over), calls in
+   addition to the required ones (logging, String(), ...), and whether a guard is written as an
+   early `return` or as an enclosing `if` (the first component of the found skeleton is kept for the
+   evidence only).
+     SetBalancer:    loop over the service's advertisements leaves by `return` on an Equal address
+                     ([override] stops at the first match); loop over the NDP responders (Watch)
+                     runs through                                               -> [inc1]
+     DeleteBalancer: loop over the advertisements with `continue` while the address is still in
+                     use ([del_body] never returns); inner loop over the NDP responders (Unwatch)
+     gratuitous:     two sweeps with `continue` for responders the advertisement does not cover
+                     (matchInterface), Gratuitous on the others ([grat_body])
      shouldAnnounce: nested loops left by `return` at the first covering advertisement ([scan])
-     spamLoop:       endless for/select, inner sweep over the map without exits ([XRecv], [XTick]) *)
-Definition skeleton := (bool * list (nat * bool * bool * bool))%type.
-Definition expected_skeletons : list (string * skeleton) := [
-  ("Announce.SetBalancer",    (true,  [(1, true, false, false); (1, false, false, false)]));
-  ("Announce.DeleteBalancer", (true,  [(1, false, false, true); (2, false, false, false)]));
-  ("Announce.gratuitous",     (true,  [(1, false, false, true); (1, false, false, true)]));
-  ("Announce.shouldAnnounce", (true,  [(1, true, false, false); (2, true, false, false)]));
-  ("Announce.spamLoop",       (false, [(1, false, false, false); (2, false, false, false)]))].
+     spamLoop:       endless for/select, inner sweep over the map without exits calling gratuitous
+                     ([XRecv], [XTick]) *)
+Definition loop := (nat * bool * bool * bool * list string)%type.
+Definition skeleton := (bool * list loop)%type.
+Definition expected_skeletons : list (string * list loop) := [
+  ("Announce.SetBalancer",    [(1, true, false, false, ["Equal"]); (1, false, false, false, ["Watch"])]);
+  ("Announce.DeleteBalancer", [(2, false, false, false, ["Unwatch"]); (1, false, false, true, ["Unwatch"])]);
+  ("Announce.gratuitous",     [(1, false, false, true, ["matchInterface"; "Gratuitous"]);
+                               (1, false, false, true, ["matchInterface"; "Gratuitous"])]);
+  ("Announce.shouldAnnounce", [(2, true, false, false, ["matchInterface"]); (1, true, false, false, ["matchInterface"])]);
+  ("Announce.spamLoop",       [(2, false, false, false, ["gratuitous"]); (1, false, false, false, ["gratuitous"])])].
 
-Definition loop_eqb (a b : nat * bool * bool * bool) : bool :=
-  match a, b with
-  | (d, r, k, c), (d', r', k', c') => Nat.eqb d d' && Bool.eqb r r' && Bool.eqb k k' && Bool.eqb c c'
+Definition mem_str (x : string) (l : list string) : bool := existsb (String.eqb x) l.
+(* e: expected (required calls), f: found (all calls of the body) *)
+Definition loop_matches (e f : loop) : bool :=
+  match e, f with
+  | (d, r, k, c, need), (d', r', k', c', have) =>
+      Nat.eqb d d' && Bool.eqb r r' && Bool.eqb k k' && Bool.eqb c c' && forallb (fun x => mem_str x have) need
   end.
-Fixpoint loops_eqb (a b : list (nat * bool * bool * bool)) : bool :=
-  match a, b with
-  | [], [] => true
-  | x :: r, y :: r' => loop_eqb x y && loops_eqb r r'
-  | _, _ => false
+(* remove the first found loop that matches e *)
+Fixpoint take_match (e : loop) (fs : list loop) : option (list loop) :=
+  match fs with
+  | [] => None
+  | f :: r => if loop_matches e f then Some r
+              else match take_match e r with Some r' => Some (f :: r') | None => None end
   end.
-Definition skeleton_eqb (a b : skeleton) : bool := Bool.eqb (fst a) (fst b) && loops_eqb (snd a) (snd b).
+(* every expected loop is paired with a distinct found loop, none is left over (greedy, first match) *)
+Fixpoint loops_match (es fs : list loop) : bool :=
+  match es with
+  | [] => match fs with [] => true | _ => false end
+  | e :: r => match take_match e fs with Some fs' => loops_match r fs' | None => false end
+  end.
+Definition skeleton_ok (found : list (string * skeleton)) (e : string * list loop) : bool :=
+  match find (fun f => String.eqb (fst f) (fst e)) found with
+  | Some f => loops_match (snd e) (snd (snd f))
+  | None => false
+  end.
 Definition skeletons_match (found : list (string * skeleton)) : bool :=
-  forallb (fun e => match find (fun f => String.eqb (fst f) (fst e)) found with
-                    | Some f => skeleton_eqb (snd f) (snd e)
-                    | None => false end) expected_skeletons.
+  forallb (skeleton_ok found) expected_skeletons.
 Definition skeleton_diffs (found : list (string * skeleton)) : list string :=
-  map fst (filter (fun e => negb (match find (fun f => String.eqb (fst f) (fst e)) found with
-                                  | Some f => skeleton_eqb (snd f) (snd e)
-                                  | None => false end)) expected_skeletons).
+  map fst (filter (fun e => negb (skeleton_ok found e)) expected_skeletons).
+
+(* the textual order does not matter: two examples of the comparison itself *)
+Example loops_match_order_free :
+  loops_match [(1, true, false, false, ["Equal"]); (1, false, false, false, ["Watch"])]
+              [(1, false, false, false, ["Error"; "Log"; "Watch"]); (1, true, false, false, ["Equal"])] = true.
+Proof. reflexivity. Qed.
+Example loops_match_continue_to_return_differs :
+  loops_match [(1, false, false, true, ["Unwatch"])] [(1, true, false, false, ["Unwatch"])] = false.
+Proof. reflexivity. Qed.
